@@ -376,3 +376,25 @@ TEXT['C11']['text'] += (' S path-resolves: a name/index path resolves only if a 
 TEXT['C10']['text'] += (' S solstring-sequence (journal layer): after several reference journals in one frame every record still holds what was '
                         'journaled for it (a later journal must not alter an earlier record).')
 TEXT['C09']['text'] += (' VVJNAL operands of the form 2^64*m + small (a valid low half under an invalid word) are generated for offset and width.')
+TEXT['C18']['text'] += (' The access-list tracer is characterised exactly: acl_spec_slots / acl_spec_addrs state which slots and accounts are listed '
+                        'after construction from any prior list and any run, as an iff.')
+TEXT['C16']['text'] += (' S recorded-stable (concurrency layer): the call tree (calldata, return data, remaining gas, error of every call) and the bytes '
+                        'returned to the embedder by a finished instance are rendered, other instances run on their own state databases, and the '
+                        'rendering must not have changed.')
+TEXT['C04']['text'] += (' A failure returned by the (mock) Aspect at the post-call join point counts as a failure of that frame in S atomic, whatever '
+                        'error the frame itself reported: its effects must be gone and the caller must have seen a failure.')
+TEXT['C06']['text'] += (' Top-level gas limits of 2^63-1, 2^63, 2^63+12345, 2^64-8 and 2^64-1 are drawn 12 % of the time (the Aspect runtime meters in int64).')
+TEXT['C10']['text'] += (' Creations with EMPTY init code (the interpreter returns at once) followed by a journaled change of the creating frame are generated.')
+TEXT['C03']['text'] += (' Interp programs end, 20 % of the time, in a PUSH opcode without operand bytes at a chosen code length modulo 8, and 30 % start '
+                        'with a taken jump, so that the jump-destination analysis (lazy, with slack bytes for a trailing PUSH32) runs on them.')
+TEXT['C02']['text'] += (' Differential programs call one of the precompiles 1-4 (absent from the pre-state) first with too little gas and then with enough: '
+                        'before EIP-158 the second call must still pay for creating the account.')
+TEXT['C15']['text'] += (' S flatfee: TLOAD / TSTORE after their operand pushes under gas limits either side of the fee and either side of the 2300 '
+                        'stipend - 100 gas flat, no sentry (EIP-1153).')
+TEXT['C01']['text'] += (' The differential pre-state keeps one account that exists empty; it is a call target and 12 % of cases begin with zero-value '
+                        'calls to it followed by a short program, so that its deletion (EIP-161 touch) shows in the state root.')
+TEXT['C14']['text'] += (' A payload class puts 2^64 - k (k up to the start of the data + 8) into the key or value LENGTH word.')
+TEXT['C03']['text'] += (' S depth-at-rest: when the step callbacks and the frames seen disagree about the depth, the EVM\'s own depth counter is read '
+                        'and must be 0 after the transaction. MODEXP pricing never panics (requiredGas_total).')
+TEXT['C17']['text'] += (' S conc-journal: 8 instances journal 2-3 strings of 32-100 bytes 150 times each, alone and then together; every instance '
+                        'must record what its own storage holds.')
